@@ -2,6 +2,7 @@
 from __future__ import annotations
 
 import ast
+import re
 from fractions import Fraction
 from math import factorial
 
@@ -262,9 +263,10 @@ def outertrig(ctx):
 
 
 # --------------------------------------------------------------------------- sqrt of a Study number
-@rule("C19.sqrt", props=["C19"], min_instances=2, mutants=[
+@rule("C19.sqrt", props=["C19", "C13"], min_instances=2, mutants=[
     ("Study norm from x * ~x", ("codegen", "        normS = (a * a - bI * bI).e", "        normS = (x * ~x).e")),
-    ("half-angle factor dropped", ("codegen", "        cp = f'(0.5 * ({str(a.e)} + {str(normS)}**0.5)) ** 0.5'", "        cp = f'(({str(a.e)} + {str(normS)}**0.5)) ** 0.5'")),
+    ("half-angle factor dropped", ("codegen", "        cp = f'(0.5 * ({str(a.e)} + ({str(normS)})**0.5)) ** 0.5'", "        cp = f'(({str(a.e)} + ({str(normS)})**0.5)) ** 0.5'")),
+    ("the Study norm is written into the formula without brackets of its own", ("codegen", "        cp = f'(0.5 * ({str(a.e)} + ({str(normS)})**0.5)) ** 0.5'", "        cp = f'(0.5 * ({str(a.e)} + {str(normS)}**0.5)) ** 0.5'")),
     ("non-scalar part scaled by c instead of 1/(2c)", ("codegen", "    dI = bI * c2_inv", "    dI = bI * c")),
 ])
 def sqrt_rule(ctx):
@@ -284,9 +286,19 @@ def sqrt_rule(ctx):
         out = it.run(q, [x])
     except NoValue as exc:
         raise Unknown(c, str(exc), fn)
+    scalar_out = out[1] if out[0] == "return" else None
     xe = T.scalar(("coef", x.key(), "e"))
     want = f"(<<{xe!r}>>**0.5)"
-    if out[0] == "return" and isinstance(out[1], dict) and list(out[1]) == [0] and str(out[1][0]).replace(" ", "") == want.replace(" ", ""):
+    def _tree(t):
+        names = {}
+        for h in re.findall(r"<<<.*?>>>", t):
+            names.setdefault(h, f"H{len(names)}")
+            t = t.replace(h, names[h])
+        try:
+            return ast.dump(ast.parse(t.strip(), mode="eval"))
+        except SyntaxError:
+            return t.replace(" ", "")
+    if out[0] == "return" and isinstance(out[1], dict) and list(out[1]) == [0] and _tree(str(out[1][0])) == _tree(want):
         ctx.ok(c, fn)
     elif out[0] == "return" and isinstance(out[1], dict):
         ctx.violation(c, f"sqrt of a scalar emits {out[1]}, expected {{0: '{want}'}}", fn)
@@ -317,7 +329,17 @@ def sqrt_rule(ctx):
         got_deps = [(repr(l), str(r)) for l, r in deps]
     except Exception:
         raise Unknown(c, f"dependencies {deps!r}", fn)
-    norm = lambda t: t.replace(" ", "")
+    hole_names = {}
+
+    def norm(t):
+        """The formula as a syntax tree (brackets and spacing do not matter), coefficient placeholders as names."""
+        for h in re.findall(r"<<<.*?>>>", t):
+            hole_names.setdefault(h, f"H{len(hole_names)}")
+            t = t.replace(h, hole_names[h])
+        try:
+            return ast.dump(ast.parse(t.strip(), mode="eval"))
+        except SyntaxError:
+            return t.replace(" ", "")
     if [(l, norm(r)) for l, r in got_deps] != [(l, norm(r)) for l, r in want_deps]:
         problems.append(f"precomputed scalars are {got_deps}, expected c = sqrt((a + sqrt(<a*a - bI*bI>))/2) and c2_inv = 0.5/c: {want_deps}")
     ed = res.attrs.get("expr_dict")
@@ -332,6 +354,45 @@ def sqrt_rule(ctx):
         ctx.violation(c, "; ".join(problems), fn)
     else:
         ctx.ok(c, fn, c=cp)
+    # The coefficients are written into the formula as TEXT (str of whatever the symbol class is - a rational polynomial
+    # or a sympy expression): the formula must mean the same when that text is a sum, i.e. every interpolated coefficient
+    # is protected by brackets, or ** and / would bind to its last term only.
+    texts = [("scalar", str(list(scalar_out.values())[0]))] if isinstance(scalar_out, dict) and scalar_out else []
+    texts += [(f"dependency {l}", r) for l, r in got_deps]
+    for label, text in texts:
+        c2 = f"{q}#text-of-coefficients:{label}"
+        holes = sorted(set(re.findall(r"<<<.*?>>>", text)))
+        # a coefficient of the operand itself (x.e, x.grade(0).e) is one symbol created by the symbol class: its text is a
+        # name. Anything computed from the operand (a*a - bI*bI) is a polynomial / sympy expression whose text may be a sum.
+        atoms_ = {f"<<{T.scalar(('coef', x.key(), 'e'))!r}>>", f"<<{T.scalar(('coef', T.opaque('grade', (x, 0)).key(), 'e'))!r}>>"}
+        derived = [h for h in holes if h not in atoms_]
+        if not derived:
+            ctx.ok(c2, fn, note="only coefficients of the operand itself (symbols) are written into the text")
+            continue
+        try:
+            atom = text
+            summed = text
+            for i, h in enumerate(holes):
+                atom = atom.replace(h, f"H{i}" if h in derived else f"A{i}")
+                summed = summed.replace(h, f"H{i}a + H{i}b" if h in derived else f"A{i}")
+            ta = ast.parse(atom, mode="eval")
+
+            class Sub(ast.NodeTransformer):
+                def visit_Name(self, node):
+                    m = re.fullmatch(r"H(\d+)", node.id)
+                    if m:
+                        return ast.BinOp(left=ast.Name(id=f"H{m.group(1)}a", ctx=ast.Load()), op=ast.Add(),
+                                         right=ast.Name(id=f"H{m.group(1)}b", ctx=ast.Load()))
+                    return node
+            want_tree = ast.dump(Sub().visit(ta))
+            got_tree = ast.dump(ast.parse(summed, mode="eval"))
+        except SyntaxError:
+            raise Unknown(c2, f"emitted text {text!r} is not an expression", fn)
+        if want_tree == got_tree:
+            ctx.ok(c2, fn)
+        else:
+            ctx.violation(c2, f"the emitted formula {text!r} changes its meaning when the text of a coefficient is a sum (as it is for "
+                              f"sympy symbols: codegen_symbolcls=Symbol gives 'a**2 + a12**2**0.5'): interpolated coefficients must be bracketed", fn)
 
 
 # --------------------------------------------------------------------------- exp branches
